@@ -211,24 +211,31 @@ def run(ctx, progs):
         if not b:
             ctx.ob("C19.anchor", "?", False, "", "anchor body not found (renamed or removed): the rule cannot be evaluated — fail closed")
         if b:
-            r = single_ret(b)
-            detail = f"return term = {tstr(r) if r else '?'}"
-            if r and is_call(r, 'Option::map'):
-                inner, clo = r[2][0], r[2][1]
-                inner_ok = is_call(inner, 'Address::checked_add') and mask_term(inner[2][1])
-                clo_ok = False
-                if clo[0] == 'agg' and clo[2] is None and len(clo[3]) == 1 and mask_term(clo[3][0]):
-                    cb = prog.by_id.get(clo[1])
-                    if cb:
-                        cr = single_ret(cb)
-                        # x & !captured
-                        if cr and is_call(cr, 'BitAnd::bitand') and is_param(cr[2][0], 2):
-                            nt = deep_strip(cr[2][1])
-                            if is_call(nt, 'Not::not'):
-                                cap = nt[2][0]
-                                clo_ok = cap[0] == 'deref' and cap[1][0] == 'field' and cap[1][1][0] == 'param' and cap[1][1][1] == 1
-                        detail += f"; closure returns {tstr(cr) if cr else '?'}"
-                ok = inner_ok and clo_ok
+            # outcome table (the same for `checked_add(self, m).map(|x| x & !m)`, a `match`, `if let` or `?`):
+            #   Some(ok(checked_add(self, m)) & !m) when that sum exists, None when it does not, with m = p - one()
+            from .. import outcomes
+            from .. import effects as _effects
+            eff19 = _effects.Effects(prog)
+            outs = outcomes.outcomes(prog, eff19, b)
+            some = [o for o in outs if deep_strip(o[1])[0] == 'agg' and deep_strip(o[1])[2] == 'Some']
+            none = [o for o in outs if deep_strip(o[1])[0] == 'agg' and deep_strip(o[1])[2] == 'None']
+            detail = "outcomes: " + "; ".join(tstr(deep_strip(o[1]))[:120] for o in outs)
+
+            def the_sum(x):
+                x = deep_strip(x)
+                while x[0] in ('ref', 'deref'):
+                    x = deep_strip(x[1])
+                return x if (is_call(x, 'Address::checked_add') and is_param(x[2][0], 1) and mask_term(x[2][1])) else None
+            if len(some) == 1 and len(none) == 1 and len(outs) == 2:
+                v = deep_strip(deep_strip(some[0][1])[3][0])
+                if is_call(v, 'BitAnd::bitand'):
+                    lhs, rhs = deep_strip(v[2][0]), deep_strip(v[2][1])
+                    sm = the_sum(lhs[1]) if lhs[0] == 'ok' else None
+                    not_ok = is_call(rhs, 'Not::not') and mask_term(rhs[2][0])
+                    f_some = any(r[0] == 'discr' and r[2] == 1 and the_sum(r[1]) is not None for r in outcomes.facts_of(b, some[0]))
+                    f_none = any(r[0] == 'discr' and r[2] == 0 and the_sum(r[1]) is not None for r in outcomes.facts_of(b, none[0]))
+                    ok = sm is not None and not_ok and f_some and f_none
+                    detail += f"; value = sum & !mask [{sm is not None and not_ok}], Some iff the checked sum exists [{f_some and f_none}]"
             # asserts: p != 0 and p & mask == 0 dominate the checked_add
             n_assert = sum(1 for c in b.calls() if c.callee and c.callee.startswith('core::panicking::assert_failed'))
             ctx.ob("R19.3.asserts", "address::Address::checked_align_up", n_assert >= 2, b.where(),
